@@ -488,6 +488,10 @@ def _call(node, sc):
         return boolv(z3.PrefixOf(args[1].v, args[0].v))
     if name == "endswith":
         return boolv(z3.SuffixOf(args[1].v, args[0].v))
+    if name == "reg_of_class":
+        # the registry a Quantity / Unit class was generated for (a class attribute: the same for all instances of one class)
+        f = z3.Function("RegOfClass", z3.IntSort(), z3.IntSort())
+        return Val(TRef("GenericPlainRegistry"), f(heapops.class_of(sc.heap, args[0].v)))
     if name == "truthy":
         return boolv(ops.truth(heapops, sc.heap, args[0]))
     if name in ("int_str_ok", "num_str_ok", "int_of_str", "num_of_str"):
